@@ -39,7 +39,9 @@ Variants(n) ==
     [] n = "M_bool" -> << [v |-> "None", ts |-> <<>>], [v |-> "Some", ts |-> <<TBool>>] >>
     [] n = "M_E2" -> << [v |-> "None", ts |-> <<>>], [v |-> "Some", ts |-> <<TEnum("E2")>>] >>
 \* struct S { x: bool, y: E2 }
-Fields(n) == << [f |-> "x", t |-> TBool], [f |-> "y", t |-> TEnum("E2")] >>
+\* struct S2 { p: bool, q: bool }  (same-typed fields: a swapped binding is not a type error)
+Fields(n) == IF n = "S2" THEN << [f |-> "p", t |-> TBool], [f |-> "q", t |-> TBool] >>
+             ELSE << [f |-> "x", t |-> TBool], [f |-> "y", t |-> TEnum("E2")] >>
 
 TypeOfName(n) ==
   CASE n = "bb" -> TTup(<<TBool, TBool>>)
@@ -50,6 +52,8 @@ TypeOfName(n) ==
     [] n = "s" -> TStr
     [] n = "sb" -> TTup(<<TStr, TBool>>)
     [] n = "st" -> TStruct("S")
+    [] n = "st2" -> TStruct("S2")
+    [] n = "st2b" -> TTup(<<TStruct("S2"), TBool>>)
     [] n = "mb" -> TEnum("M_bool")
     [] n = "me" -> TEnum("M_E2")
     [] n = "bbb" -> TTup(<<TTup(<<TBool, TBool>>), TBool>>)
